@@ -3,3 +3,4 @@ pub mod http;
 pub mod byteranges;
 pub mod lookup;
 pub mod rangemodel;
+pub mod selftest;
